@@ -8,7 +8,10 @@ when `unshare -m` works, the real selection code (public functions of the
 working tree called by the harness, plus in the thorough tier the real binary
 built from /repo with the guard off) run in a private mount namespace over a
 fabricated /proc/bus/input/devices, /sys/devices and /dev/input, compared with
-the model's selection layer and with the extracted specifications.
+the model's selection layer and with the extracted specifications.  There the
+primary observation of a selection run is which fabricated nodes it OPENS
+(inotify); what its verbose log says is secondary (apply_log_policy: used only
+if it parsed and agreed with the opens in every scenario of the run).
 See harness/src/engines/listing.rs and ocaml/listing_check.ml."""
 import os, json, re, time, glob, shutil
 
@@ -208,10 +211,6 @@ def apply_log_policy(diffs, hits, summary):
         return (bad_real if "real-binary" in str(who) else bad_probe) == 0
     d2 = [x for x in diffs if keep(x, x["input"].get("what"))]
     h2 = [x for x in hits if keep(x, x["input"].get("via"))]
-    if os.environ.get("DBG_LOGPOLICY"):
-        for x in diffs + hits:
-            if x not in d2 and x not in h2:
-                print("DROPPED", x.get("clause"), x["input"].get("what"), x["input"].get("via"), json.dumps(x.get("impl") or x.get("observed"))[:200], "||", json.dumps(x.get("model") or x.get("expected"))[:200])
     note = {"verbose_log_observations_used": summary.get("ns_log_used", 0) if not (bad_probe or bad_real) else "partly or not at all (see below)",
             "verbose_log_unparsed": summary.get("ns_log_unparsed_probe", 0) + summary.get("ns_log_unparsed_real", 0),
             "verbose_log_contradicting_the_opens": summary.get("ns_log_disagree_probe", 0) + summary.get("ns_log_disagree_real", 0),
